@@ -25,6 +25,8 @@ func checkC01(r *core.Run) {
 	r.Rule("D3: no store/map update/in-place mutator rooted at a package-level variable or at a field of a long-lived pointer receiver")
 	r.Rule("D1-dep: module code never sets DidDocumentMetadata.NextUpdate/Updated, the only inputs under which the DID library's VerifyJWS consults time.Now() (exception to A-deps found by reading sao-did v0.0.12)")
 	r.Rule("D4: no go/chan/select; D5: no float x*y±z without explicit conversion")
+	r.Rule("T-get-immutable: the bytes a KVStore / iterator hands back (Get, Value, Key) are never written in place in consensus-reachable module code (the cache layers hand back the slice they hold: a write changes this process's copy of committed state even when the transaction is dropped)")
+	ruleNoInPlace(r, "T-get-immutable", "store")
 	r.Assume(aDeps)
 	r.Assume(aCG)
 	r.Assume(aGen)
@@ -64,6 +66,8 @@ func checkC03(r *core.Run) {
 	r.Explanation = "C03 (structural clauses only): module code reachable from consensus entry points (and therefore from CheckTx/simulation, which run the same handlers and hooks) never writes process-resident state: package-level variables, fields of long-lived keeper/server/hook values, memory or transient stores. If that holds, module code is a function of (committed stores, message), which is what restart equivalence needs from it. Decides this necessary condition, not SDK/IAVL restart behaviour."
 	r.Rule("D3: no store/map update/in-place mutator rooted at a package-level variable or at a field of a long-lived pointer receiver (Keeper, msgServer, Hooks, AppModule, App, Migrator)")
 	r.Rule("D3-mem: no module function opens a KV store through a mem/transient key")
+	r.Rule("T-get-immutable: the bytes a KVStore / iterator hands back (Get, Value, Key) are never written in place (such a write survives the rollback of a failed or simulated transaction as process-local residue in the store's caches)")
+	ruleNoInPlace(r, "T-get-immutable", "store")
 	r.Assume(aDeps)
 	r.Assume(aCG)
 	r.Assume(aGen)
